@@ -67,3 +67,79 @@ func ChunkSizes(total int, sizes []int) []int {
 	}
 	return out
 }
+
+// ChunkedDecode decodes an aws-chunked stream positionally: "<hex>;" then a
+// field of 16+64 bytes ("chunk-signature=" + signature) and CRLF, <hex> bytes of
+// data, CRLF, …, until a zero-length chunk. payload is the concatenation of
+// the chunk payloads found; complete reports that the stream is framed exactly
+// like ChunkedEncode does (every literal in place, final zero chunk and
+// trailing CRLF present, nothing after it); dataComplete reports that every
+// announced data byte was present (the stream may end right after it).
+func ChunkedDecode(s []byte) (payload []byte, complete bool, dataComplete bool) {
+	pos := 0
+	strict := true
+	for {
+		// hex size
+		i := pos
+		for i < len(s) && isHex(s[i]) {
+			i++
+		}
+		if i == pos || i >= len(s) || s[i] != ';' || i-pos > 15 {
+			return payload, false, pos == len(s) && len(payload) > 0 || (pos == len(s))
+		}
+		var n int64
+		for _, c := range s[pos:i] {
+			n = n*16 + int64(hexVal(c))
+		}
+		hdrEnd := i + 1 + 16 + 64 + 2
+		if hdrEnd > len(s) {
+			return payload, false, false
+		}
+		if string(s[i+1:i+17]) != "chunk-signature=" || s[hdrEnd-2] != '\r' || s[hdrEnd-1] != '\n' {
+			strict = false
+		}
+		for _, c := range s[i+17 : hdrEnd-2] {
+			if !isHex(c) {
+				strict = false
+			}
+		}
+		if n == 0 {
+			// final chunk: "\r\n" must follow and end the stream
+			rest := s[hdrEnd:]
+			return payload, strict && string(rest) == "\r\n", true
+		}
+		if int64(len(s)-hdrEnd) < n {
+			payload = append(payload, s[hdrEnd:]...)
+			return payload, false, false
+		}
+		payload = append(payload, s[hdrEnd:hdrEnd+int(n)]...)
+		pos = hdrEnd + int(n)
+		if pos == len(s) {
+			return payload, false, true
+		}
+		if pos+2 > len(s) {
+			return payload, false, true
+		}
+		if s[pos] != '\r' || s[pos+1] != '\n' {
+			strict = false // positional decoding goes on; the stream is no longer exactly framed
+		}
+		pos += 2
+		if pos == len(s) {
+			return payload, false, true
+		}
+	}
+}
+
+func isHex(c byte) bool {
+	return (c >= '0' && c <= '9') || (c >= 'a' && c <= 'f') || (c >= 'A' && c <= 'F')
+}
+
+func hexVal(c byte) int {
+	switch {
+	case c >= '0' && c <= '9':
+		return int(c - '0')
+	case c >= 'a' && c <= 'f':
+		return int(c-'a') + 10
+	}
+	return int(c-'A') + 10
+}
